@@ -227,7 +227,11 @@ def ser(x):
 def render(c):
     """-> (document text, root object for validation, version hint)"""
     if c["kind"] == "text":
-        return c["text"], HSMCertificateRoot(ROOT1_PUB.hex()), 0
+        if c.get("v") == 2:
+            return c["text"], HSMCertificateV2ElementX509(certs.V2Cert(
+                {"root": 1, "leaf": 2, "att": 3, "auth": b"a", "custom": b"c"}
+            ).root_element_map()), 2
+        return c["text"], HSMCertificateRoot(ROOT1_PUB.hex()), c.get("v", 0)
     if c["kind"] == "genuine-v1":
         cert, root_pub = c06.build(c["c06"])
         return json.dumps(cert.to_dict()), HSMCertificateRoot(root_pub.hex()), 1
@@ -456,7 +460,8 @@ def run_case(c):
     return Out(labels, interesting)
 
 
-REQUIRED_LABELS = {t: ["loaded", "loaded-with-targets", "some-target-valid", "round-trip",
+REQUIRED_LABELS = {t: ["near-miss-reference", "loaded", "loaded-with-targets",
+                       "some-target-valid", "round-trip",
                        "kind:genuine-v1", "kind:genuine-v2", "version:1", "version:2"] +
                    ["shape:" + x for x in V2_SHAPES if x != "other-target"] +
                    ["shape:other-target|known-finding-hit"] +
@@ -498,11 +503,56 @@ def fuzz_to_case(mode, data):
     return decode(cases("quick"), data)
 
 
+NEAR_NAMES = ["", "r", "ro", "oo", "t", "root", "sgx", "_", "sgx_roo", "gx_root", "sgx_root",
+              "ROOT", "Root", "root ", " root", "root\u0000", "sgx_root ", "rootroot", "device",
+              "attestation", "ui", "quote", "quoting_enclave", "platform_ca"]
+
+
+def reference_cases(tier, seed):
+    """Genuine certificates of both versions in which ONE reference - an element's certifier or
+    a target - is replaced by a name that is nearly right (a part of the root's name, another
+    spelling of it, another element): the loader either reports an error or yields a
+    certificate whose every target has a finite path to the root, as for any document."""
+    from vlib import attest
+    dev = attest.LedgerDevice(1, 2, 3)
+    ui = attest.ui_message("5.4", bytes(32), b"\x02" + bytes(32), bytes(32), 1)
+    v1 = dev.certificate(ui, bytes([1]) * 32, attest.legacy_signer_message("5.3", bytes(32)),
+                         bytes([2]) * 32).to_dict()
+    v2 = certs.V2Cert({"root": 1, "leaf": 2, "att": 3, "auth": b"a", "custom": b"c"}).to_dict()
+    out = []
+    for ver, doc in ((1, v1), (2, v2)):
+        for i, e in enumerate(doc["elements"]):
+            for nm in NEAR_NAMES:
+                if nm == e["signed_by"]:
+                    continue
+                d = json.loads(json.dumps(doc))
+                d["elements"][i]["signed_by"] = nm
+                out.append({"kind": "text", "v": ver, "text": json.dumps(d),
+                            "what": "signer-of:%s" % e["name"]})
+        for i, t in enumerate(doc["targets"]):
+            for nm in NEAR_NAMES:
+                if nm == t:
+                    continue
+                d = json.loads(json.dumps(doc))
+                d["targets"][i] = nm
+                out.append({"kind": "text", "v": ver, "text": json.dumps(d),
+                            "what": "target"})
+    return out
+
+
+def run_reference_case(c):
+    out = run_case(c)
+    return Out(list(out.labels) + ["near-miss-reference"], True)
+
+
 def stages(tier):
-    from vlib.runner import FuzzStage
+    from vlib.runner import FuzzStage, EnumStage
     return [HypStage("documents", lambda t: cases(t), run_case,
                      {"quick": 400, "thorough": 15000},
                      budget_s={"quick": 100, "thorough": 1200}),
+            EnumStage("near-miss-references", reference_cases, run_reference_case,
+                      exhaustive={"quick": True, "thorough": True},
+                      budget_s={"quick": 60, "thorough": 60}),
             FuzzStage("fuzz", "C16", [("raw", False), ("raw", True), ("hyp", False)],
                       {"quick": 3000, "thorough": 60000}, run_case, fuzz_to_case, fuzz_seeds,
                       budget_s={"quick": 45, "thorough": 600}, max_len=6000,
